@@ -13,6 +13,9 @@ Case (plain value)::
      'groups': [{'lo': 1, 'hi': 1, 'deps': [(0, 'h')], 'by': [(2, 's')]}],   # optional nested graph nodes
      'sched': ('choices', [0, 3, 1]) | ('pct', [prio...], [points...]) | ('dfs', P)}
 """
+import collections
+import types
+
 from hypothesis import strategies as st
 
 from valjean.cosette.task import Task, TaskStatus
@@ -26,7 +29,7 @@ OUTCOMES_FAIL = ['failed', 'raise', 'raise_value', 'raise_type', 'raise_exit']
 OUTCOMES_MALFORMED = ['none', 'nonpair', 'triple', 'badstatus_str', 'badstatus_int',
                       'badupdate_int', 'badupdate_list', 'badupdate_emptylist', 'badupdate_zero',
                       'badupdate_emptystr', 'partial_clash', 'badstatus_waiting',
-                      'badstatus_pending']
+                      'badstatus_pending', 'badstatus_rawint_waiting', 'badstatus_rawint_pending']
 # updates that are mappings but cannot be merged into the environment (C03 only: whether the
 # merge fails depends on which task publishes first, so C01/C02 have no schedule-free model)
 OUTCOMES_UNMERGEABLE = ['clash_scalar', 'clash_mapping', 'ownsection_scalar']
@@ -95,6 +98,7 @@ class Probe(Task):
         self.returned = False
         self.version = 1
         self.echo = False
+        self.mapkind = None
 
     def do(self, env, config):
         ctrl = vsched.CTRL if vsched.CTRL is not None else _NoController
@@ -118,7 +122,11 @@ class Probe(Task):
         self.returned = True
         kind = self.outcome
         update = expected_update(self.name, self.version)
-        if self.echo:
+        if self.mapkind:
+            # the update is a mapping, but not a dict (a read-only view, a UserDict, a ChainMap)
+            update = {'proxy': types.MappingProxyType, 'userdict': collections.UserDict,
+                      'chainmap': lambda upd: collections.ChainMap({}, upd)}[self.mapkind](update)
+        if self.echo and isinstance(update, dict):
             # a task that reads its own section, adds its results to a copy of it and returns
             # the whole section: the copy carries the status (PENDING) and the clocks that the
             # scheduler wrote there; what the scheduler writes at the end must prevail
@@ -150,6 +158,10 @@ class Probe(Task):
             return update, TaskStatus.WAITING
         if kind == 'badstatus_pending':
             return update, TaskStatus.PENDING
+        if kind == 'badstatus_rawint_waiting':   # plain numbers that equal a non-final status
+            return update, 1
+        if kind == 'badstatus_rawint_pending':
+            return update, 2.0
         if kind == 'badupdate_int':
             return 3, TaskStatus.DONE
         if kind == 'badupdate_list':
@@ -267,6 +279,7 @@ def build(case, run):
     tasks = [Probe(f't{i}', case['outcomes'][i], run) for i in range(case['n'])]
     for task in tasks:
         task.echo = bool(case.get('echo'))
+        task.mapkind = case.get('mapkind')
     hard, soft = deps_of(case)
     for i, task in enumerate(tasks):
         task.hard = [tasks[j] for j in sorted(hard[i])]
@@ -333,6 +346,8 @@ def shape_labels(case):
         labs.append('backend-reused-after-other-graph')
     if case.get('echo'):
         labs.append('tasks-return-their-whole-section')
+    if case.get('mapkind'):
+        labs.append('updates-are-mappings-but-not-dicts')
     if case.get('spurious'):
         labs.append('spurious-wakeups')
     if case.get('reloaded'):
@@ -543,6 +558,8 @@ def extras(draw, n):
         extra['order'] = draw(st.permutations(list(range(n))))
     if draw(st.integers(0, 5)) == 0:
         extra['echo'] = True       # tasks return their whole own section (see Probe.do)
+    elif draw(st.integers(0, 5)) == 0:
+        extra['mapkind'] = draw(st.sampled_from(['proxy', 'userdict', 'chainmap']))
     if draw(st.integers(0, 7)) == 0:
         # Condition.wait may return without a notification after that many scheduling points
         extra['spurious'] = draw(st.sampled_from([2, 5, 15, 40]))
